@@ -30,6 +30,7 @@ import (
 	"os"
 	"path/filepath"
 	"sort"
+	"strconv"
 	"strings"
 	"sync"
 	"sync/atomic"
@@ -333,11 +334,31 @@ func newEnv(scratch string) (*env, error) {
 
 func (e *env) cleanup() { _ = os.RemoveAll(e.caseDir) }
 
+// files lists the regular files below the root (paths relative to it), however the implementation lays them out.
+func (e *env) files() []string {
+	var out []string
+	_ = filepath.WalkDir(e.root, func(p string, d fs.DirEntry, err error) error {
+		if err == nil && d.Type().IsRegular() {
+			rel, _ := filepath.Rel(e.root, p)
+			out = append(out, rel)
+		}
+		return nil
+	})
+	return out
+}
+
+// errLayout: an entry is not kept as exactly one file - the byte-level corruption family and the external-change
+// operations do not know which file to damage. Not an alarm: those families are reported as not run.
+var errLayout = errors.New("an entry is not stored as exactly one regular file below the root")
+
 // snap is a recursive snapshot of the case directory (the scratch parent of the cache root).
+//
+// The statement only fixes that nothing is read or written OUTSIDE the root: how many files an entry takes, what they
+// are called, sub-directories, temporary or lock files below the root are the implementation's business.
 type snap struct {
-	entries []string // files directly under the root: "<name>:<sha256 of content>"
-	outside []string // files anywhere else
-	dirs    []string // directories other than the chain down to the root
+	entries []string // regular files anywhere below the root: "<path relative to the root>:<sha256 of content>"
+	outside []string // anything outside the root (files, directories, links) except the chain of directories down to it
+	dirs    []string // directories below the root (part of the state, never judged)
 	key     string   // canonical form of everything above
 }
 
@@ -349,19 +370,30 @@ func (e *env) snapshot() (snap, error) {
 		}
 		rel, _ := filepath.Rel(e.caseDir, p)
 		rel = filepath.ToSlash(rel)
+		inside := strings.HasPrefix(rel, rootRel+"/")
 		if d.IsDir() {
-			if rel != "." && rel != rootRel && !strings.HasPrefix(rootRel, rel+"/") {
-				s.dirs = append(s.dirs, rel)
+			switch {
+			case inside:
+				s.dirs = append(s.dirs, strings.TrimPrefix(rel, rootRel+"/"))
+			case rel != "." && rel != rootRel && !strings.HasPrefix(rootRel, rel+"/"):
+				s.outside = append(s.outside, rel+" (directory)")
 			}
 			return nil
 		}
-		if d.Type().IsRegular() && filepath.ToSlash(filepath.Dir(rel)) == rootRel {
+		if inside {
+			if !d.Type().IsRegular() {
+				s.entries = append(s.entries, strings.TrimPrefix(rel, rootRel+"/")+":"+d.Type().String())
+				return nil
+			}
 			b, err := os.ReadFile(p)
 			if err != nil {
+				if errors.Is(err, fs.ErrNotExist) {
+					return nil
+				}
 				return err
 			}
 			h := sha256.Sum256(b)
-			s.entries = append(s.entries, filepath.Base(rel)+":"+hex.EncodeToString(h[:]))
+			s.entries = append(s.entries, strings.TrimPrefix(rel, rootRel+"/")+":"+hex.EncodeToString(h[:]))
 			return nil
 		}
 		kind := "file"
@@ -466,12 +498,15 @@ func judgeGet(tag, urlName string, got *corecrl.Bundle, err error, pv any, want 
 		return "", &viol{"history/panic:get", fmt.Sprintf("%s panicked: %v", at, pv)}
 	case got == nil && err == nil:
 		return "", &viol{"history/nil-bundle-without-error", at + " returned (nil, nil)"}
-	case got != nil && err != nil:
-		return "", &viol{"history/bundle-together-with-error", fmt.Sprintf("%s returned a bundle and the error %v", at, err)}
 	case got != nil && got.BaseCRL == nil:
 		return "", &viol{"history/bundle-without-base", at + " returned a bundle without base CRL"}
 	}
-	miss := err != nil && errors.Is(err, corecrl.ErrCacheMiss)
+	if got != nil && err != nil {
+		// a bundle handed out together with an error is judged as what it is, a bundle handed out (must be the stored
+		// one and fresh); that an error accompanies a legitimate bundle is recorded only
+		cs.add("recorded:bundle-together-with-error")
+	}
+	miss := got == nil && err != nil && errors.Is(err, corecrl.ErrCacheMiss)
 	if want == nil {
 		switch {
 		case miss:
@@ -567,6 +602,19 @@ func runHistory(a *alphabet, nURL int, ops []op, judgeFrom int, count bool) (res
 			}
 		}
 		u := a.urls[o.U]
+		// "distinct URLs never share or overwrite an entry": an entry that IS returned right before a Set under
+		// another URL string must not be gone (or changed - judged by the probes anyway) right after it
+		var heldBefore []int
+		if judge && o.Kind == opSet {
+			for v := 0; v < nURL; v++ {
+				if m := model[v]; v != o.U && m != nil && !m.expired() && !m.NoNextUpdate {
+					res.evals++
+					if got, gerr, pv := safeGet(e.cache, a.urls[v].URL); pv == nil && gerr == nil && got != nil && sameRaw(got.BaseCRL, m.B.BaseCRL) {
+						heldBefore = append(heldBefore, v)
+					}
+				}
+			}
+		}
 		res.evals++
 		switch o.Kind {
 		case opSet:
@@ -598,11 +646,13 @@ func runHistory(a *alphabet, nURL int, ops []op, judgeFrom int, count bool) (res
 			}
 			err, pv := safeSet(e.cache, u.URL, b)
 			if judge {
+				// the statement says nothing about a Set without bundle / base CRL: what it answers is recorded;
+				// what later Gets return is judged against the unchanged model as always
 				switch {
 				case pv != nil:
-					add(&viol{"history/panic:" + o.Kind, fmt.Sprintf("%s %s(%s) panicked: %v", tag, o.Kind, u.Name, pv)})
+					class("recorded:nil-set-panicked")
 				case err == nil:
-					add(&viol{"history/nil-set-reported-success:" + o.Kind, fmt.Sprintf("%s %s(%s) returned nil: there is no bundle a later Get could be faithful to", tag, o.Kind, u.Name)})
+					class("recorded:nil-set-reported-success")
 				default:
 					class("nil-set:refused")
 				}
@@ -627,23 +677,21 @@ func runHistory(a *alphabet, nURL int, ops []op, judgeFrom int, count bool) (res
 		}
 		what := fmt.Sprintf("after %s %s", tag, a.opString(o))
 		if len(after.outside) > 0 {
-			add(&viol{"history/file-outside-root", fmt.Sprintf("%s: files outside the cache root (relative to its 5th ancestor): %q", what, after.outside)})
-		}
-		if len(after.dirs) > 0 {
-			add(&viol{"history/directory-created", fmt.Sprintf("%s: unexpected directories: %q", what, after.dirs)})
+			add(&viol{"history/file-outside-root", fmt.Sprintf("%s: outside the cache root (relative to its 5th ancestor): %q", what, after.outside)})
 		}
 		if ents, _ := os.ReadDir(a.absTarget); len(ents) > 0 {
 			add(&viol{"history/file-outside-root", fmt.Sprintf("%s: the directory named by the absolute-path URL is not empty", what)})
 		}
+		// the number of files per entry and whether Get / a refused Set tidy up below the root are not fixed by the statement
 		if len(after.entries) != len(model) {
-			add(&viol{"history/entry-count-differs-from-stored-urls", fmt.Sprintf("%s: %d distinct URLs were stored successfully, the cache root holds %d files %q", what, len(model), len(after.entries), after.entries)})
+			class("recorded:entry-count-differs-from-stored-urls")
 		}
 		if o.Kind != opSet && after.key != before.key {
 			k := "get"
 			if o.Kind != opGet {
 				k = "nil-set"
 			}
-			add(&viol{"history/directory-changed-by:" + k, fmt.Sprintf("%s: directory content changed", what)})
+			class("recorded:directory-changed-by:" + k)
 		}
 		// probe every URL of the alphabet in the state reached
 		for v := 0; v < nURL; v++ {
@@ -651,6 +699,13 @@ func runHistory(a *alphabet, nURL int, ops []op, judgeFrom int, count bool) (res
 			res.evals++
 			c, vi := judgeGet(what+", probing", a.urls[v].Name, got, err, pv, model[v])
 			add(vi)
+			if strings.HasPrefix(c, "stored-fresh-entry-not-returned") {
+				for _, h := range heldBefore {
+					if h == v {
+						add(&viol{"history/entry-lost-by-store-under-another-url", fmt.Sprintf("%s: Get(%s) returned the stored bundle right before this Set under another URL and does not return it any more (%v)", what, a.urls[v].Name, err)})
+					}
+				}
+			}
 			if c != "" {
 				class("probe:" + c)
 				if count && strings.HasPrefix(c, "bundle-faithful:base") {
@@ -664,7 +719,10 @@ func runHistory(a *alphabet, nURL int, ops []op, judgeFrom int, count bool) (res
 			return
 		}
 		if after2.key != after.key {
-			add(&viol{"history/directory-changed-by:get", fmt.Sprintf("%s: directory content changed by the probing Gets", what)})
+			class("recorded:directory-changed-by:get")
+		}
+		if len(after2.outside) > 0 && len(after.outside) == 0 {
+			add(&viol{"history/file-outside-root", fmt.Sprintf("%s and the probing Gets: outside the cache root: %q", what, after2.outside)})
 		}
 		res.state = after.key
 	}
@@ -813,14 +871,26 @@ type decoded struct {
 	base       *x509.RevocationList
 	delta      *x509.RevocationList // nil: entry without delta
 	trailing   bool                 // the field holds bytes after the CRL that x509.ParseRevocationList ignores
+	lenient    string               // non-empty: only a lenient (but reasonable) reader takes the file for an entry; error and this bundle are both accepted
 }
 
 func oracleDecode(data []byte) decoded {
 	var f fileEntry
-	if err := json.Unmarshal(data, &f); err != nil {
-		return decoded{why: "not JSON of an entry: " + err.Error()}
-	}
 	var d decoded
+	if err := json.Unmarshal(data, &f); err != nil {
+		// a streaming reader (json.Decoder) stops after the first value: whether bytes after a complete entry
+		// make the file "not a well-formed entry" is not fixed by the statement
+		f = fileEntry{}
+		if err2 := json.NewDecoder(bytes.NewReader(data)).Decode(&f); err2 != nil {
+			return decoded{why: "not JSON of an entry: " + err.Error()}
+		}
+		d.lenient = "bytes after the first JSON value ignored"
+	}
+	if f.DeltaCRL != nil && len(f.DeltaCRL) == 0 {
+		// "deltaCRL":"" - present-but-empty or absent is the reader's choice
+		f.DeltaCRL = nil
+		d.lenient = "empty deltaCRL member read as absent"
+	}
 	var err error
 	if d.base, err = x509.ParseRevocationList(f.BaseCRL); err != nil {
 		return decoded{why: "base CRL: " + err.Error()}
@@ -938,11 +1008,11 @@ func runCorrupt(a *alphabet, entry *bundleSpec, c corruption) (class string, vs 
 	if err, pv := safeSet(e.cache, corruptURL, entry.B); err != nil || pv != nil {
 		return "", []viol{{"!infra", fmt.Sprintf("cannot store the entry to corrupt: %v %v", err, pv)}}
 	}
-	ents, err := os.ReadDir(e.root)
-	if err != nil || len(ents) != 1 {
-		return "", []viol{{"!infra", fmt.Sprintf("expected exactly one file under the root after one Set, found %d (%v)", len(ents), err)}}
+	ents := e.files()
+	if len(ents) != 1 {
+		return "skipped(" + errLayout.Error() + ")", nil
 	}
-	path := filepath.Join(e.root, ents[0].Name())
+	path := filepath.Join(e.root, ents[0])
 	if err := os.WriteFile(path, c.Data, 0o600); err != nil {
 		return "", []viol{{"!infra", err.Error()}}
 	}
@@ -950,20 +1020,26 @@ func runCorrupt(a *alphabet, entry *bundleSpec, c corruption) (class string, vs 
 	got, gerr, pv := safeGet(e.cache, corruptURL)
 	after, _ := e.snapshot()
 	if after.key != before.key {
-		vs = append(vs, viol{"corrupt/directory-changed-by-get:" + c.Kind, fmt.Sprintf("Get on entry corrupted by %s changed the directory content", c.Label)})
+		cs.add("recorded:directory-changed-by-get-on-corrupted-entry") // e.g. a Get that removes what it cannot read: not fixed by the statement
+	}
+	if len(after.outside) > 0 {
+		vs = append(vs, viol{"corrupt/file-outside-root:" + c.Kind, fmt.Sprintf("Get on entry corrupted by %s: outside the cache root: %q", c.Label, after.outside)})
 	}
 	d := oracleDecode(c.Data)
 	at := fmt.Sprintf("entry %s corrupted by %s", entry.Name, c.Label)
-	miss := gerr != nil && errors.Is(gerr, corecrl.ErrCacheMiss)
+	miss := got == nil && gerr != nil && errors.Is(gerr, corecrl.ErrCacheMiss)
+	if got != nil && gerr != nil {
+		cs.add("recorded:bundle-together-with-error") // judged as a bundle handed out
+	}
 	switch {
 	case pv != nil:
 		vs = append(vs, viol{"corrupt/panic:" + c.Kind, fmt.Sprintf("%s: Get panicked: %v", at, pv)})
 	case got == nil && gerr == nil:
 		vs = append(vs, viol{"corrupt/nil-bundle-without-error:" + c.Kind, at + ": Get returned (nil, nil)"})
-	case got != nil && gerr != nil:
-		vs = append(vs, viol{"corrupt/bundle-together-with-error:" + c.Kind, fmt.Sprintf("%s: Get returned a bundle and the error %v", at, gerr)})
 	case got != nil:
 		switch {
+		case got.BaseCRL == nil:
+			vs = append(vs, viol{"corrupt/bundle-differs-from-file:" + c.Kind, at + ": bundle without base CRL"})
 		case !d.wellFormed:
 			vs = append(vs, viol{"corrupt/bundle-from-malformed-file:" + c.Kind, fmt.Sprintf("%s: the file is not a well-formed entry (%s), yet Get returned a bundle", at, d.why)})
 		case !sameRaw(got.BaseCRL, d.base) || (got.DeltaCRL == nil) != (d.delta == nil) || (d.delta != nil && !sameRaw(got.DeltaCRL, d.delta)):
@@ -976,6 +1052,8 @@ func runCorrupt(a *alphabet, entry *bundleSpec, c corruption) (class string, vs 
 			}
 		case d.trailing:
 			class = "bundle-equals-parsed-file(bytes after the CRL ignored by x509.ParseRevocationList; not judged)"
+		case d.lenient != "":
+			class = "bundle-equals-file(lenient reading: " + d.lenient + "; not judged)"
 		default:
 			class = "bundle-equals-file"
 		}
@@ -1007,12 +1085,23 @@ func (a *alphabet) entryFile(b *bundleSpec) ([]byte, error) {
 	if err, pv := safeSet(e.cache, corruptURL, b.B); err != nil || pv != nil {
 		return nil, fmt.Errorf("Set: %v %v", err, pv)
 	}
-	ents, err := os.ReadDir(e.root)
-	if err != nil || len(ents) != 1 {
-		return nil, fmt.Errorf("expected one file, found %d (%v)", len(ents), err)
+	ents := e.files()
+	if len(ents) != 1 {
+		return nil, errLayout
 	}
-	return os.ReadFile(filepath.Join(e.root, ents[0].Name()))
+	file, err := os.ReadFile(filepath.Join(e.root, ents[0]))
+	if err != nil {
+		return nil, err
+	}
+	// the oracle of this family knows one format (the JSON object with base64 members); if it cannot read back
+	// what Set itself wrote, the format has changed and the family cannot judge
+	if d := oracleDecode(file); !d.wellFormed || d.lenient != "" || !sameRaw(d.base, b.B.BaseCRL) || (d.delta == nil) != (b.B.DeltaCRL == nil) || (d.delta != nil && !sameRaw(d.delta, b.B.DeltaCRL)) {
+		return nil, errFormat
+	}
+	return file, nil
 }
+
+var errFormat = errors.New("the entry file Set writes is not the JSON entry the oracle knows")
 
 func (a *alphabet) corruptions(entry *bundleSpec) ([]corruption, error) {
 	file, err := a.entryFile(entry)
@@ -1045,6 +1134,8 @@ var (
 	notJudged   []string
 )
 
+var corruptSkipped bool
+
 func corrupt(r *hx.Run, a *alphabet) {
 	names := []string{"base+delta-fresh"}
 	if r.Thorough() {
@@ -1054,6 +1145,11 @@ func corrupt(r *hx.Run, a *alphabet) {
 	for _, n := range names {
 		entry := a.bundleByName(n)
 		list, err := a.corruptions(entry)
+		if errors.Is(err, errLayout) || errors.Is(err, errFormat) {
+			r.Capped("corruption family not run: " + err.Error())
+			corruptSkipped = true
+			return
+		}
 		if err != nil {
 			if r.Violations() > 0 { // the history family already shows why nothing can be stored
 				cs.add("corrupt:skipped(the entry to corrupt could not be stored)")
@@ -1206,7 +1302,7 @@ func clockFamily(r *hx.Run, a *alphabet) {
 					at(2030)
 					r.Eval(1)
 					if err := c.Set(context.Background(), u.URL, b.B); err != nil {
-						r.Violation("clock/set-failed", fmt.Sprintf("Set(%s,%s) at clock year 2030: %v", u.Name, b.Name, err), clockCase{"clock", b.Name, u.Name, ys})
+						r.Outcome("recorded:clock/set-failed") // the statement does not demand that Set accepts every bundle (e.g. an expired one)
 						continue
 					}
 					for step, y := range ys {
@@ -1224,11 +1320,13 @@ func clockFamily(r *hx.Run, a *alphabet) {
 						inst := map[bool]string{true: "same-instance", false: "fresh-instance"}[sameInstance]
 						where := fmt.Sprintf("Get #%d of clock history %v (%s) for bundle %s under URL %s", step+1, ys, inst, b.Name, u.Name)
 						switch {
-						case want && (gerr != nil || got == nil):
-							r.Violation("clock/fresh-entry-not-returned:"+inst, fmt.Sprintf("%s: at clock year %d neither CRL has passed its next-update time, got error %v", where, y, gerr), clockCase{"clock", b.Name, u.Name, ys})
+						case want && got == nil:
+							// "returned only while ..." is an implication: a cache that does not hand out a fresh entry
+							// (a maximum age, a safety margin before next-update ...) keeps the property. Recorded.
+							r.Outcome("recorded:clock/fresh-entry-not-returned:" + inst)
 						case want && (!bytes.Equal(got.BaseCRL.Raw, b.B.BaseCRL.Raw) || (got.DeltaCRL == nil) != (b.B.DeltaCRL == nil) || (got.DeltaCRL != nil && !bytes.Equal(got.DeltaCRL.Raw, b.B.DeltaCRL.Raw))):
 							r.Violation("clock/returned-bundle-differs:"+inst, where, clockCase{"clock", b.Name, u.Name, ys})
-						case !want && gerr == nil:
+						case !want && got != nil:
 							r.Violation("clock/expired-bundle-returned:"+inst, fmt.Sprintf("%s: at clock year %d a CRL of the entry has passed its next-update time, yet the bundle was returned", where, y), clockCase{"clock", b.Name, u.Name, ys})
 						case !want && !errors.Is(gerr, corecrl.ErrCacheMiss):
 							r.Violation("clock/expired-entry-not-a-miss:"+inst, fmt.Sprintf("%s: at clock year %d the result must be a cache miss, got %v", where, y, gerr), clockCase{"clock", b.Name, u.Name, ys})
@@ -1260,7 +1358,7 @@ func clockFamily(r *hx.Run, a *alphabet) {
 			return
 		}
 		if err := c.Set(context.Background(), "http://h/boundary", b.B); err != nil {
-			r.Violation("clock/set-failed", err.Error(), clockCase{"clock-boundary", name, "boundary", nil})
+			r.Outcome("recorded:clock/set-failed")
 			continue
 		}
 		edges := []time.Time{b.B.BaseCRL.NextUpdate}
@@ -1280,9 +1378,9 @@ func clockFamily(r *hx.Run, a *alphabet) {
 				switch {
 				case exact:
 					r.Outcome(fmt.Sprintf("clock-boundary:at-the-next-update-instant:returned=%v(not judged)", gerr == nil))
-				case want && (gerr != nil || got == nil):
-					r.Violation("clock/fresh-entry-not-returned:boundary", fmt.Sprintf("%s: neither CRL has passed its next-update time, got %v", where, gerr), clockCase{"clock-boundary", name, d.String(), nil})
-				case !want && gerr == nil:
+				case want && got == nil:
+					r.Outcome("recorded:clock/fresh-entry-not-returned:boundary") // implication, see above
+				case !want && got != nil:
 					r.Violation("clock/expired-bundle-returned:boundary", where+": a CRL has passed its next-update time, yet the bundle was returned", clockCase{"clock-boundary", name, d.String(), nil})
 				case !want && !errors.Is(gerr, corecrl.ErrCacheMiss):
 					r.Violation("clock/expired-entry-not-a-miss:boundary", fmt.Sprintf("%s: got %v", where, gerr), clockCase{"clock-boundary", name, d.String(), nil})
@@ -1296,6 +1394,14 @@ func clockFamily(r *hx.Run, a *alphabet) {
 		_ = os.RemoveAll(filepath.Dir(root))
 	}
 	r.Extra["clock_boundary_reads"] = nb
+}
+
+// budget scales the internal deadlines (VERIF_BUDGET_SCALE=4 on an overloaded machine; the bounds stay the same).
+func budget(d time.Duration) time.Duration {
+	if f, err := strconv.ParseFloat(os.Getenv("VERIF_BUDGET_SCALE"), 64); err == nil && f > 0 {
+		return time.Duration(float64(d) * f)
+	}
+	return d
 }
 
 func main() {
@@ -1319,30 +1425,42 @@ func main() {
 		r.Finish()
 	}
 	if r.Thorough() {
-		r.SetDeadline(9 * time.Minute)
+		r.SetDeadline(budget(9 * time.Minute))
 	} else {
-		r.SetDeadline(40 * time.Second)
+		r.SetDeadline(budget(40 * time.Second))
 	}
 	explore(r, a)
 	corrupt(r, a)
 	clockFamily(r, a) // sequential: the displaced clock is process-global
 
-	// non-vacuity: every URL returned every fresh bundle faithfully at least once;
-	// expired entries were seen as misses; the unmodified file was read back
-	// (only when nothing was violated: a violation explains lost controls and must decide the exit code)
+	// non-vacuity (only when nothing was violated: a violation explains lost controls and must decide the exit code).
+	// The controls ask for nothing the statement leaves open: SOME URL must have returned a stored base and a stored
+	// base+delta bundle faithfully and a never-stored URL must have been a miss. URLs that never returned a fresh
+	// bundle (an implementation may refuse to store under, say, the empty URL) are listed in the evidence only.
 	ctlURLs := a.urls
 	if !r.Thorough() {
 		ctlURLs = a.urls[:7] // the quick history alphabet
 	}
-	for _, u := range ctlURLs {
-		for _, b := range []string{"base-fresh", "base+delta-fresh"} {
-			if _, ok := controls.Load(u.Name + "|" + b); !ok && r.Violations() == 0 {
-				r.Infra("positive control failed: bundle %s stored under URL %q was never returned", b, u.Name)
+	var without []string
+	for _, b := range []string{"base-fresh", "base+delta-fresh"} {
+		seen := false
+		for _, u := range ctlURLs {
+			if _, ok := controls.Load(u.Name + "|" + b); ok {
+				seen = true
+			} else {
+				without = append(without, u.Name+"|"+b)
 			}
 		}
+		if !seen && r.Violations() == 0 {
+			r.Infra("positive control failed: bundle %s was never returned under any URL it was stored under", b)
+		}
 	}
-	for _, c := range []string{"probe:miss:expired-base", "probe:miss:expired-delta", "probe:miss:never-stored", "nil-set:refused",
-		"corrupt-control(unmodified file):bundle-equals-file", "corrupt:error(file malformed)", "boundary(now-/+1h):ok"} {
+	r.Extra["urls_that_never_returned_a_stored_fresh_bundle"] = without
+	need := []string{"probe:miss:never-stored", "boundary(now-/+1h):ok"}
+	if !corruptSkipped {
+		need = append(need, "corrupt-control(unmodified file):bundle-equals-file", "corrupt:error(file malformed)")
+	}
+	for _, c := range need {
 		if cs.get(c) == 0 && r.Violations() == 0 {
 			r.Infra("control class %q was never observed", c)
 		}
